@@ -185,12 +185,6 @@ func f(totalVotingPower types.VotingPower) types.VotingPower {
 }
 
 func q(totalVotingPower types.VotingPower) types.VotingPower {
-	// Unfortunately there is no ceiling function for integers in go.
-	d := totalVotingPower * 2
-	q := d / 3
-	r := d % 3
-	if r > 0 {
-		q++
-	}
-	return q
+	// ceil(2N/3) computed as N - floor(N/3): unlike (2*N)/3 it cannot overflow for N >= 2^63.
+	return totalVotingPower - totalVotingPower/3
 }
